@@ -23,8 +23,10 @@
 (*   SoloVerify     address(bk) = NextBookkeeper of the parent (same key   *)
 (*                  multiset), m = n - (n-1)/3 over the header's own list  *)
 (*   Hdr / Blk      AddHeader ; SubmitBlock / AddBlock.  AsIs = TRUE is    *)
-(*                  the code as it stands (block set assigned before the   *)
-(*                  body can fail), AsIs = FALSE the intended design.      *)
+(*                  the code before fix 306f139 (block set assigned before *)
+(*                  the body can fail; named deviation, kept for the       *)
+(*                  sensitivity run), AsIs = FALSE the intended design =   *)
+(*                  the code since that fix.                               *)
 (* Monitor part (PropC14, PropC14Step): the property and nothing more:     *)
 (*   Safety   accepted => at least Need(|S|) DISTINCT members of the set   *)
 (*            in force S have a valid signature in the header              *)
@@ -48,7 +50,7 @@ CONSTANTS Kind,     \* "theorem" | "table" | "replay"
           Lists,    \* replay: signer sets of the header alphabet (listed in increasing order, all signatures valid)
           Paths,    \* replay: subset of {"hdr","sub","add"}
           D,        \* replay: behaviour length
-          AsIs,     \* replay: TRUE = block-path set assigned before the body is checked (code as it stands)
+          AsIs,     \* replay: TRUE = block-path set assigned before the body is checked (code before fix 306f139)
           EmitOn
 
 VARIABLES st,   \* table/theorem: the row ; replay: [fh, fb, gh, gb] sets held by the node and ghost sets in force
